@@ -139,7 +139,7 @@ func (w *c04World) check(what string) {
 	}
 }
 
-//verif:h prop=C04 p.entries=2/3 p.maxkey=2/2 p.wrappers=2/4 cover=get-hit,get-miss,has,set-new,set-overwrite,delete-hit,delete-miss runs=400000 timeout=100/900
+//verif:h prop=C04 p.entries=2/3 p.maxkey=2/2 p.wrappers=2/4 cover=get-hit,get-miss,has,set-new,set-overwrite,delete-hit,delete-miss runs=400000 timeout=900/900
 func H_C04_point() {
 	w := c04Setup()
 	key := verifrt.Bytes("key", 2)
@@ -193,7 +193,7 @@ func H_C04_point() {
 	w.check("point operation")
 }
 
-//verif:h prop=C04 p.entries=2/3 p.maxkey=2/2 p.wrappers=2/4 cover=all,stopped,empty,values runs=400000 timeout=150/900
+//verif:h prop=C04 p.entries=2/3 p.maxkey=2/2 p.wrappers=2/4 cover=all,stopped,empty,values runs=400000 timeout=900/900
 func H_C04_iterate() {
 	w := c04Setup()
 	prefix := verifrt.Bytes("prefix", 1)
@@ -279,7 +279,7 @@ func H_C04_iterate() {
 	w.check("iteration (and writing to the keys / values it handed out) must not change the store")
 }
 
-//verif:h prop=C04 p.entries=2/3 p.maxkey=2/2 p.wrappers=2/4 cover=deleteprefix,clear runs=400000 timeout=100/900
+//verif:h prop=C04 p.entries=2/3 p.maxkey=2/2 p.wrappers=2/4 cover=deleteprefix,clear runs=400000 timeout=900/900
 func H_C04_prefix() {
 	w := c04Setup()
 	if verifrt.Choose("op", 2) == 0 {
@@ -296,7 +296,7 @@ func H_C04_prefix() {
 	w.check("DeletePrefix/Clear must remove exactly the keys with the prefix inside the realm")
 }
 
-//verif:h prop=C04 p.entries=1/2 p.maxkey=1/2 p.wrappers=2/4 p.batchops=2/3 cover=commit,cancel,set-then-delete runs=400000 timeout=150/900
+//verif:h prop=C04 p.entries=1/2 p.maxkey=1/2 p.wrappers=2/4 p.batchops=2/3 cover=commit,cancel,set-then-delete runs=400000 timeout=900/900
 func H_C04_batch() {
 	w := c04Setup()
 	b, err := w.view.Batched()
@@ -408,7 +408,7 @@ func H_C04_closed() {
 // H_C04_hist: histories of p.ops operations through the public API only (NewMapDB, views, wrappers), from the
 // empty store, with symbolic 1-byte keys/realms: robust against refactoring of the representation.
 //
-//verif:h prop=C04 p.ops=2/3 cover=hist runs=400000 timeout=200/900
+//verif:h prop=C04 p.ops=2/3 cover=hist runs=400000 timeout=900/900
 func H_C04_hist() {
 	root := NewMapDB()
 	store := kvstore.KVStore(root)
